@@ -48,6 +48,9 @@ def base_message(i):
     return m
 
 
+DECOY_FILE = refvbs.vbs([refcodec.encode(PACKAGED, 'latin_1', False, base_message(i)) for i in range(40)])
+
+
 def plant(kind, rec, codec, config):
     """returns (new record bytes, new prefix int or None, truncate_after:int or None) or None if not applicable"""
     frames = mutate.frames_of(config, codec, False, rec)
@@ -243,7 +246,15 @@ def _check(data, blocked, codec, entries, tail, kw, src):
     style = len(data) % 3
     state = {'it': iter(raw_reader), 'n': 0}
 
+    # a second reader over another (good) file is advanced in between (two files open at once): each counts its own records
+    decoy = iter(mciipm.IpmReader(io.BytesIO(DECOY_FILE), encoding='latin_1')) if len(data) % 2 else None
+
     def step():
+        if decoy is not None:
+            try:
+                next(decoy)
+            except StopIteration:
+                pass
         if style == 1 or (style == 2 and state['n'] % 2 == 1):
             state['it'] = iter(raw_reader)
         state['n'] += 1
